@@ -44,7 +44,8 @@ def e1_programs(tier):
     # (2) every name x kind with a fixed two-argument list and every argument-name pair
     for kind in ["instantiate", "exec", "query", "sudo", "migrate"]:
         for nm in names:
-            for (a1, a2) in ([("a", "b1")] if tier == "quick" else list(itertools.permutations(ARG_NAMES_E1, 2))):
+            quick_pairs = [("a", "b1")] + ([("contract", "ctx"), ("field1", "self_"), ("msg", "contract")] if nm in ("foo", "foo1") else [])
+            for (a1, a2) in (quick_pairs if tier == "quick" else list(itertools.permutations(ARG_NAMES_E1, 2))):
                 m = Method(kind, nm, (Arg(a1, "u32"), Arg(a2, "String")))
                 yield ("ct:%s:%s:n:%s,%s" % (kind, nm, a1, a2), "contract", contract_of([m]), [m])
                 if kind in ENUMK:
